@@ -1324,8 +1324,14 @@ class Irc(IrcCommandDispatcher, log.Firewalled):
                 assert not msg.tagged('receivedAt')
                 if not world.testing:
                     assert not msg.tagged('emulatedEcho')
-                msg.tag('emulatedEcho', True)
-                self.feedMsg(msg, tag=False)
+                # The echo is a copy: the outgoing message itself stays
+                # untagged, so the same object can be queued again later
+                # (tagged, it failed the assertion above the second time
+                # and was silently dropped).
+                echo = ircmsgs.IrcMsg(msg=msg)
+                echo.channel = msg.channel
+                echo.tag('emulatedEcho', True)
+                self.feedMsg(echo, tag=False)
             else:
                 # I don't think we should do this.  Why should it matter?  If it's
                 # something important, then the server will send it back to us,
